@@ -343,7 +343,9 @@ class BlockTag(Tag):
 
         tokens = TokenStream(token.expression)
         block_name = parse_string_or_identifier(tokens.next())
-        required = tokens.next().type_ == TokenType.REQUIRED
+        required = tokens.current().type_ == TokenType.REQUIRED
+        if required:
+            tokens.next()
         tokens.expect_eos()
 
         block_token = stream.next()
